@@ -374,8 +374,46 @@ func c19M6(r *core.R) {
 			}()
 		}
 	}
+	c19M6Roles(r, m, tsFld)
 	r.Stat("binary_search_loops_classified", nloops)
 	if nloops == 0 {
 		r.Anchor("binary-search loop (a `for` over lo.SeqNum < hi.SeqNum with one state fetch of its own)")
 	}
+}
+
+// aboutProbed: the condition compares the query time with something derived from a probed state (directly, or
+// through a local defined from it).
+func (o *c19TimeOps) aboutProbed(e ast.Expr) bool {
+	info := o.m.info
+	if !usesObj(info, e, o.tVar) {
+		return false
+	}
+	for _, v := range c19VarsIn(info, e) {
+		if o.sVars[v] {
+			return true
+		}
+		if n, def, _ := c19Writes(info, o.fi.Decl.Body, v); n == 1 && def != nil {
+			for _, w := range c19VarsIn(info, def) {
+				if o.sVars[w] {
+					return true
+				}
+			}
+		}
+	}
+	return false
+}
+
+// c19TimestampField returns the single time.Time field of replication.State.
+func (m *c19Model) timestampField() *types.Var {
+	var f *types.Var
+	st := m.stateT.Underlying().(*types.Struct)
+	for i := 0; i < st.NumFields(); i++ {
+		if namedPath(st.Field(i).Type()) == "time.Time" {
+			if f != nil {
+				return nil
+			}
+			f = st.Field(i)
+		}
+	}
+	return f
 }
